@@ -5,6 +5,7 @@
 From Coq Require Import ZArith List.
 From Verif Require Import Lib.Params Lib.Octets Spec.Edwards Spec.Blake512 Spec.EdDSASpec
   Model.BabyJub Model.Eddsa Proofs.KeccakStreamProofs Proofs.EddsaProofs.
+From Verif Require Gen.BigIntRoutines Proofs.BigIntEqKeys.
 Local Open Scope Z_scope.
 
 Notation smul := (smul q ca cd).
@@ -36,8 +37,23 @@ Proof. exact (public_in_subgroup blake512 blake512_length blake512_bytes). Qed.
 Theorem C12_routes_agree : forall k, ScalarPublic (SkToBigInt blake512 k) = Public blake512 k.
 Proof. exact (routes_agree blake512). Qed.
 
+(* TRANSLATOR TIE: tools/bigintgen regenerates value-level Gallina from the Go source of these
+   functions at every run (Gen/BigIntRoutines.v); it equals the hand-written model the theorems
+   above are about, for all arguments.  An edit of the Go function breaks this. *)
+Theorem C12_model_is_the_source : forall blake,
+  (forall buf, BigIntRoutines.babyjub_pruneBuffer buf = pruneBuffer buf) /\
+  (forall k, BigIntRoutines.babyjub_SkToBigInt blake k = SkToBigInt blake k) /\
+  (forall s, BigIntRoutines.babyjub_PrivKeyScalar_Public s = ScalarPublic s) /\
+  (forall k, BigIntRoutines.babyjub_PrivateKey_Public blake k = Public blake k).
+Proof.
+  intros blake.
+  exact (conj BigIntEqKeys.gen_babyjub_pruneBuffer_eq (conj (BigIntEqKeys.gen_babyjub_SkToBigInt_eq blake)
+        (conj BigIntEqKeys.gen_babyjub_PrivKeyScalar_Public_eq (BigIntEqKeys.gen_babyjub_PrivateKey_Public_eq blake)))).
+Qed.
+
 Print Assumptions C12_prune_is_clamp.
 Print Assumptions C12_scalar.
 Print Assumptions C12_public.
 Print Assumptions C12_public_in_subgroup.
 Print Assumptions C12_routes_agree.
+Print Assumptions C12_model_is_the_source.
